@@ -945,6 +945,10 @@ def plan(thorough):
     for ch in _chunks(rh, 1500):
         items.append(('R', ch, KS))
     bounds['R'] = {'histories': len(rh), 'k': KS}
+    # ---- P
+    items.append(('P', KS, not thorough))
+    bounds['P'] = {'records': 'n = 0..%d copies-in-sequence of each record kind of S (homogeneous history)' % (3 if not thorough else 4), 'k': KS,
+                   'indices': 'every int list of length <= 2 over [-n, n], the same as int arrays, every boolean mask of length n as list and as array'}
     seen = set()
     for n, it in enumerate(items):
         items[n] = tuple(it) + (it[0] not in seen,)
@@ -952,6 +956,83 @@ def plan(thorough):
     bounds['values'] = {'x_kinds': allx, 'dims': DIMS, 'x_patterns': [[repr(v) for v in p] for p in XPAT],
                         'y_kinds': yall, 'ids': IDS}
     return items, bounds
+
+
+# =============================================================== P: list / array indices
+def pick_indices(n):
+    """every list-like index of a monitor with n records: int lists of length <= 2 over [-n, n] (n is out of range),
+    the same as an int64 array, and every boolean mask of length n as a list and as an array"""
+    import numpy as np
+    out = [('ints', [])]
+    rng = list(range(-n, n + 1))
+    for i in rng:
+        out.append(('ints', [i]))
+        for j in rng:
+            out.append(('ints', [i, j]))
+    for kind, y in list(out):
+        out.append(('intarray', np.array(y, dtype=int)))
+    for mask in itertools.product((False, True), repeat=n):
+        if n:
+            out.append(('boolmask', list(mask)))
+            out.append(('boolarray', np.array(mask, dtype=bool)))
+    return out
+
+
+def shard_pick(item):
+    """m[y] for y a list / ndarray: numpy's reading of y on the list of records (integers select positions, a boolean mask of
+    the monitor's length selects where True), a NEW monitor with the same k, the source unchanged; an out-of-range integer
+    raises IndexError.  Homogeneous histories only (numpy cannot index a ragged parameter history: not judged)."""
+    T = Tally()
+    for r in range(len(SEQ_RECORDS)):
+        for k in item[1]:
+            for n in range(0, 4 if item[2] else 5):
+                m, ref = new_monitor(k), RefMonitor()
+                for pos in range(n):
+                    x, y, i, px, py, ck = _seq_record(r, pos)
+                    m(x, y, i)
+                    ref.record_plain(px, py, i, ck)
+                for ikind, y in pick_indices(n):
+                    T.count('traces'); T.count('transitions')
+                    ylist = [v for v in (y.tolist() if hasattr(y, 'tolist') else y)]
+                    if ikind.startswith('bool'):
+                        want = RefMonitor([rec for rec, b in zip(ref.r, ylist) if b])
+                    elif any(not -n <= v < n for v in ylist):
+                        want = IndexError
+                    else:
+                        want = RefMonitor([ref.r[v] for v in ylist])
+                    before = deep(m)
+                    case = {'part': 'P', 'record': r, 'k': k, 'n': n, 'index_kind': ikind, 'index': [bool(v) if ikind.startswith('bool') else int(v) for v in ylist]}
+                    sig = {'part': 'pick', 'index_kind': ikind, 'k': '*' if k is not None else None}
+                    try:
+                        res = m[y]
+                    except IndexError:
+                        res = IndexError
+                    except Exception as e:
+                        T.violate(dict(sig, clause='pick_raised'), case, 'Monitor(k=%r) with %d records: m[%r] raised %s: %s' % (k, n, y, type(e).__name__, e))
+                        continue
+                    msgs = []
+                    if want is IndexError or res is IndexError:
+                        T.hist('pick_outcome', 'IndexError' if want is res else 'mismatch')
+                        if want is not res:
+                            msgs.append(('pick', 'm[%r] -> %s, reference -> %s' % (y, 'IndexError' if res is IndexError else 'a monitor of %d records' % len(res),
+                                                                                     'IndexError' if want is IndexError else '%d records' % len(want))))
+                    else:
+                        msgs += compare(res, want, 'm[%r]' % (y,))
+                        if res is m:
+                            msgs.append(('slice_identity', 'm[%r] returned the monitor itself' % (y,)))
+                        elif res.k != m.k:
+                            msgs.append(('slice_k', 'm[%r].k = %r, source k = %r' % (y, res.k, m.k)))
+                        T.hist('pick_outcome', '%s:%s' % (ikind, 'nonempty' if len(want) else 'empty'))
+                        if len(want):
+                            T.nontriv(('P', r, k, n, ikind, tuple(case['index'])))
+                        T.state(('P', want.key()))
+                    msgs += [(c, t) for c, t in compare(m, ref, 'the source after m[%r]' % (y,))]
+                    if deep(m) != before:
+                        msgs.append(('argument_changed', 'm[%r] altered the source monitor' % (y,)))
+                    for clause, text in msgs:
+                        T.violate(dict(sig, clause=clause), case, 'Monitor(k=%r) of %d records (kind %d): %s' % (k, n, r, text))
+    T.sample({'part': 'P', 'record': 0, 'k': None, 'n': 3, 'index_kind': 'boolmask', 'index': [True, False, True]})
+    return T
 
 
 MEM_CAP = 1536 << 20      # bytes of heap a shard may use: a monitor operation that does not
@@ -968,7 +1049,7 @@ def _dispatch(item):
     except (ValueError, OSError):
         pass
     try:
-        T = {'S': shard_sequences, 'F': shard_files, 'W': shard_rewrite, 'L': shard_logs, 'R': shard_records}[item[0]](item)
+        T = {'S': shard_sequences, 'F': shard_files, 'W': shard_rewrite, 'L': shard_logs, 'R': shard_records, 'P': shard_pick}[item[0]](item)
     finally:
         resource.setrlimit(resource.RLIMIT_DATA, (soft, hard))
     T.count('cpu_ms_part_%s' % item[0], int(1000 * (time.process_time() - t0)))
@@ -1010,7 +1091,11 @@ def replay(case):
     part = case['part']
     k = case.get('k')
     out = []
-    if part == 'R':
+    if part == 'P':
+        T = shard_pick(('P', [k], False))
+        out = [v['detail'] for v in T.violations.values()
+               if all(v['case'].get(f) == case.get(f) for f in ('record', 'n', 'index_kind', 'index'))]
+    elif part == 'R':
         out = [t for c, t in run_records(case['specs'], k)]
     elif part == 'S':
         ops = [tuple(o) for o in case['ops']]
